@@ -21,6 +21,9 @@ CONSTANTS
   MaxMgrs = ${17}
   MaxPosts = ${18}
   EMIT = ${19}
+  PROBE = ${20:-FALSE}
+  ACKinds = ${21:-{\}}
+  RDecs = {TRUE, FALSE}
   RTerms = 0
   RCoef = 0
   RBound = 0
@@ -36,7 +39,7 @@ CONSTANTS
   KMax2 = 0
 CHECK_DEADLOCK FALSE
 EOF
-if [ "$2" = SSpec ]; then for i in AllowedIsConjunction Exact NeverDropped StoreCanonical LastDiagram; do echo "INVARIANT $i" >> $1.cfg; done; fi; }
+if [ "$2" = SSpec ]; then for i in ${22:-AllowedIsConjunction Exact NeverDropped StoreCanonical LastDiagram}; do echo "INVARIANT $i" >> $1.cfg; done; fi; }
 ALLOPS='{">=", "<=", ">", "<", "="}'
 V2='{"a", "b"}'; V3='{"a", "b", "c"}'; V4='{"a", "b", "c", "d"}'; V6='{"a", "b", "c", "d", "e", "f"}'; V7='{"a", "b", "c", "d", "e", "f", "g"}'; ALLF='{"clause", "imply", "amo", "pb"}'
 B='{0, 1}'
@@ -48,5 +51,17 @@ mks SatLayer_thorough_amo  SSpec "$V7" '{"amo"}' 0 2 7 "$B" '{2, 3, 4, 5}' raw 0
 mks SatLayer_thorough_amo2 SSpec "$V7" '{"amo"}' 0 0 7 '{1}' '{3, 4}' raw 0 "$B" 0 0 0 '{">="}' 2 2 TRUE
 mks SatLayer_thorough_seq  SSpec "$V3" '{"clause", "amo", "pb"}' 1 0 3 "$B" '{3}' ordered 3 '{1}' 0 2 3 '{">="}' 2 2 TRUE
 mks SatLayer_thorough_seq3 SSpec "$V3" '{"pb"}' 0 0 0 "$B" '{}' ordered 3 '{1}' 0 1 2 '{">="}' 3 3 TRUE
+# propagation strength (thorough only): one constraint, every partial assignment probed with unit propagation
+V5='{"a", "b", "c", "d", "e"}'
+HOLD='{"clause", "imply", "amo_quadratic", "amo_heule", "pb_clause"}'
+DIAG='{"pb_plain", "pb_decomposition"}'
+mks SatLayer_ac_hold     SSpec "$V3" "$ALLF" 2 2 3 "$B" '{3}' ordered 3 "$B" 0 3 8 '{">="}' 1 1 TRUE TRUE "$HOLD" "ProbeSound ProbeDetectsInconsistency ProbeArcConsistent"
+mks SatLayer_ac_amo      SSpec "$V5" '{"amo"}' 0 0 5 "$B" '{3, 4}' raw 0 "$B" 0 0 0 '{">="}' 1 1 TRUE TRUE "$HOLD" "ProbeSound ProbeDetectsInconsistency ProbeArcConsistent"
+# the diagrams: the plain construction refutes every inconsistent partial assignment by propagation alone ...
+mks SatLayer_ac_plain_detects SSpec "$V3" '{"pb"}' 0 0 0 "$B" '{}' ordered 3 "$B" 0 3 8 '{">="}' 1 1 FALSE TRUE '{"pb_plain"}' "ProbeSound ProbeDetectsInconsistency"
+# ... the coefficient decomposition does not (TLC MUST report a violation: 3~a + 3~b + 3~c >= 7) ...
+mks SatLayer_ac_dec_detects_mustfail SSpec "$V3" '{"pb"}' 0 0 0 "$B" '{}' ordered 3 "$B" 0 3 8 '{">="}' 1 1 FALSE TRUE '{"pb_decomposition"}' "ProbeDetectsInconsistency"
+# ... and neither derives every entailed literal (one-directional Tseitin; TLC MUST report a violation)
+mks SatLayer_ac_plain_complete_mustfail SSpec "$V3" '{"pb"}' 0 0 0 "$B" '{}' ordered 3 "$B" 0 3 8 '{">="}' 1 1 FALSE TRUE '{"pb_plain"}' "ProbeArcConsistent"
 mks SatTrace TraceSpec "$V7" '{}' 0 0 0 "$B" '{}' raw 0 "$B" 0 0 0 '{">="}' 0 0 FALSE
 mks SatTrace3 TraceSpec "$V3" '{}' 0 0 0 "$B" '{}' raw 0 "$B" 0 0 0 '{">="}' 0 0 FALSE
